@@ -203,6 +203,59 @@ func runC19(c *Ctx) {
 		})
 	}
 
+	c.rule("C19-R14", "ORD: a failed reload leaves the running version as it was: in the functions of cmd/glyph/server.go that build a version (they can return an error), nothing the running version still uses is shut down or closed (a call of Shutdown / Close / Stop on a value loaded from the manager's own fields) at a point from which an error return is still reachable - the reload can still fail late (a missing static directory, a duplicate pattern), the old handler keeps serving, and its WebSocket hub is gone: connected clients are cut and new ones hang")
+	{
+		n := 0
+		for _, fn := range c.srcFuncs(glyphCmd) {
+			if !strings.HasSuffix(c.Fset.Position(fn.Pos()).Filename, "/server.go") || fn.Signature.Results().Len() == 0 {
+				continue
+			}
+			last := fn.Signature.Results().At(fn.Signature.Results().Len() - 1).Type()
+			if !types.Identical(last, types.Universe.Lookup("error").Type()) {
+				continue
+			}
+			k := 0
+			eachInstr(fn, func(_ *ssa.BasicBlock, _ int, ins ssa.Instruction) {
+				cl, ok := ins.(*ssa.Call)
+				if !ok {
+					return
+				}
+				name := ""
+				var recv ssa.Value
+				if cl.Call.IsInvoke() {
+					name, recv = cl.Call.Method.Name(), cl.Call.Value
+				} else if sf := cl.Call.StaticCallee(); sf != nil && sf.Signature.Recv() != nil && len(cl.Call.Args) > 0 {
+					name, recv = sf.Name(), cl.Call.Args[0]
+				}
+				if name != "Shutdown" && name != "Close" && name != "Stop" {
+					return
+				}
+				// the receiver is something the manager holds (the running version's), not something built in this call
+				held := derivesFrom(recv, func(v ssa.Value) bool {
+					u, ok := v.(*ssa.UnOp)
+					if !ok || u.Op != token.MUL {
+						return false
+					}
+					nt, _, ok := fieldOf(u.X)
+					return ok && nt != nil && nt.Obj().Pkg() != nil && nt.Obj().Pkg().Path() == modPath+"/cmd/glyph"
+				})
+				if !held {
+					return
+				}
+				k++
+				n++
+				q := &pathQuery{fn: fn, target: func(x ssa.Instruction) bool {
+					r, ok := x.(*ssa.Return)
+					return ok && len(r.Results) > 0 && !isNilConst(stripConv(retVals(r)[len(r.Results)-1]))
+				}}
+				hit, path := q.after(ins)
+				c.ob("C19-R14", fnKey(fn)+"#running-version-retired-only-after-the-last-fallible-step-"+itoa(k), cl.Pos(), hit == nil, "something the running version uses is shut down while this reload can still fail: after a late failure the old handler keeps serving without it (its WebSocket hub: connected clients are cut with 1006, new ones get the upgrade and then hang)", c.blockPath(path)...)
+			})
+		}
+		c.Sites["C19-R14#retire-calls"] = n
+		c.ob("C19-R14", glyphCmd+"#retire-calls-examined", token.NoPos, true, "")
+	}
+
 	c.rule("C19-R13", "LCK: the dev server swaps its handler while requests are in flight, and some requests never end (the live-reload event stream of an open browser tab, a WebSocket): in cmd/glyph no mutex is held - not even shared - while a request is handed to the current handler (a call of http.Handler.ServeHTTP or of an http.HandlerFunc value). A reader lock held for the length of a request makes the next successful reload wait for ever for the writer lock, and every new request queue up behind that waiting writer")
 	{
 		e13 := newLck(c, &lckConfig{rule: "C19-R13", pkgs: []string{glyphCmd}, guards: nil})
